@@ -1008,12 +1008,16 @@ pub struct HiBitsProg {
     /// terms coef * product of selected inputs; `sel` bit i selects input i
     pub terms: Vec<(u8, u16, bool)>,
     pub print_low: bool,
+    /// optional quotient stage: an extra input byte q*k is divided by the odd constant k with an
+    /// odd-step loop (the optimiser multiplies by the 2-adic inverse of k, a full-width constant);
+    /// (k selector, q, coefficient)
+    pub div: Option<(u8, u8, u8)>,
 }
 
 impl HiBitsProg {
     pub fn render(&self) -> String {
         let m = self.inputs.len() as i64;
-        // cells: 0..m inputs, acc = m, t0 = m+1, t1 = m+2, t2 = m+3, flag = m+4
+        // cells: 0..m inputs, acc = m, t0 = m+1, t1 = m+2, t2 = m+3, flag = m+4, dividend = m+5, quotient = m+6
         let (acc, t0, t1, t2, flag) = (m, m + 1, m + 2, m + 3, m + 4);
         let mut w = W::new();
         for i in 0..m {
@@ -1021,6 +1025,27 @@ impl HiBitsProg {
             w.e(",");
         }
         let mut expected: i64 = 0;
+        if let Some((ksel, q, coef)) = self.div {
+            let k = [3u64, 5, 7, 9, 11, 13][(ksel % 6) as usize];
+            let q = 1 + (q % 12) as i64;
+            let coef = 1 + (coef % 5) as i64;
+            // the dividend q*k arrives as the next input byte (see input()); quotient = dividend / k
+            w.go(m + 5);
+            w.e(",[");
+            w.rep('-', k);
+            w.go(m + 6);
+            w.e("+");
+            w.go(m + 5);
+            w.e("]");
+            // acc += coef * quotient
+            w.go(m + 6);
+            w.e("[-");
+            w.go(acc);
+            w.rep('+', coef as u64);
+            w.go(m + 6);
+            w.e("]");
+            expected += coef * q;
+        }
         for &(sel, coef, neg) in &self.terms {
             let cells: Vec<i64> = (0..m).filter(|i| sel >> i & 1 == 1).collect();
             let coef = 1 + (coef % 300) as i64;
@@ -1076,8 +1101,21 @@ impl HiBitsProg {
     }
 }
 
+impl HiBitsProg {
+    /// The input stream the program is paired with: its inputs, then the dividend of the quotient stage.
+    pub fn input(&self) -> Vec<u8> {
+        let mut v = self.inputs.clone();
+        if let Some((ksel, q, _)) = self.div {
+            let k = [3u64, 5, 7, 9, 11, 13][(ksel % 6) as usize];
+            v.push(((1 + (q % 12) as u64) * k) as u8);
+        }
+        v
+    }
+}
+
 pub fn hibits_prog() -> impl Strategy<Value = HiBitsProg> {
-    (vec(0u8..13, 1..4), vec((1u8..8, prop_oneof![2 => 0u16..300, 1 => 120u16..260], any::<bool>()), 1..5), any::<bool>()).prop_map(|(inputs, terms, print_low)| HiBitsProg { inputs, terms, print_low })
+    (vec(0u8..13, 1..4), vec((1u8..8, prop_oneof![2 => 0u16..300, 1 => 120u16..260], any::<bool>()), 1..5), any::<bool>(), proptest::option::weighted(0.5, (0u8..6, 0u8..12, 0u8..5)))
+        .prop_map(|(inputs, terms, print_low, div)| HiBitsProg { inputs, terms, print_low, div })
 }
 
 // ---------------------------------------------------------------- union
@@ -1136,7 +1174,7 @@ impl ProgAst {
     /// Some families fix the input stream they are paired with.
     pub fn fixed_input(&self) -> Option<Vec<u8>> {
         match self {
-            ProgAst::HiBits(p) => Some(p.inputs.clone()),
+            ProgAst::HiBits(p) => Some(p.input()),
             _ => None,
         }
     }
